@@ -78,6 +78,24 @@ impl F {
     /// `x.floor() as i64`
     #[verifier::external_body]
     pub fn floor_i64(x: F) -> (r: i64) ensures (r as real) <= x@, (r as real) + 1real > x@ { unimplemented!() }
+    /// Theory M has no NaN or infinities
+    #[verifier::external_body]
+    pub fn is_finite(self) -> (r: bool) ensures r { unimplemented!() }
+    #[verifier::external_body]
+    pub fn is_nan(self) -> (r: bool) ensures !r { unimplemented!() }
+    #[verifier::external_body]
+    pub fn is_infinite(self) -> (r: bool) ensures !r { unimplemented!() }
+    /// rounding functions: uninterpreted beyond being functions (no property relies on them)
+    #[verifier::external_body]
+    pub fn round(self) -> (r: F) { unimplemented!() }
+    #[verifier::external_body]
+    pub fn floor(self) -> (r: F) ensures r@ <= self@ < r@ + 1real { unimplemented!() }
+    #[verifier::external_body]
+    pub fn ceil(self) -> (r: F) ensures r@ - 1real < self@ <= r@ { unimplemented!() }
+    #[verifier::external_body]
+    pub fn trunc(self) -> (r: F) { unimplemented!() }
+    #[verifier::external_body]
+    pub fn signum(self) -> (r: F) { unimplemented!() }
     #[verifier::external_body]
     pub fn to_radians(self) -> (r: F) ensures r@ == self@ * pi_r() / 180real { unimplemented!() }
 }
@@ -105,7 +123,13 @@ impl vstd::std_specs::ops::MulSpecImpl<F> for F {
 }
 impl Mul<F> for F { type Output = F;
     #[verifier::external_body]
-    fn mul(self, rhs: F) -> (r: F) ensures r@ == self@ * rhs@ { unimplemented!() } }
+    fn mul(self, rhs: F) -> (r: F) ensures r@ == self@ * rhs@,
+        // consequences of real arithmetic (proved below in lemma_mul_facts), stated here so that proofs do not depend on hints
+        (self@ >= 0real && rhs@ >= 0real) ==> r@ >= 0real,
+        (self@ == 0real || rhs@ == 0real) ==> r@ == 0real,
+        (self@ >= 0real && 0real <= rhs@ <= 1real) ==> r@ <= self@,
+        (rhs@ >= 0real && 0real <= self@ <= 1real) ==> r@ <= rhs@,
+    { unimplemented!() } }
 // Division never traps (like the hardware); the quotient by zero is unspecified (div0_r).
 impl vstd::std_specs::ops::DivSpecImpl<F> for F {
     open spec fn obeys_div_spec() -> bool { false }
@@ -114,7 +138,9 @@ impl vstd::std_specs::ops::DivSpecImpl<F> for F {
 }
 impl Div<F> for F { type Output = F;
     #[verifier::external_body]
-    fn div(self, rhs: F) -> (r: F) ensures r@ == div_r(self@, rhs@) { unimplemented!() } }
+    fn div(self, rhs: F) -> (r: F) ensures r@ == div_r(self@, rhs@),
+        (self@ >= 0real && rhs@ > 0real) ==> r@ >= 0real,   // proved in lemma_mul_facts
+    { unimplemented!() } }
 impl vstd::std_specs::ops::NegSpecImpl for F {
     open spec fn obeys_neg_spec() -> bool { false }
     open spec fn neg_req(self) -> bool { true }
@@ -140,6 +166,21 @@ impl vstd::std_specs::cmp::PartialOrdSpecImpl<F> for F {
 impl PartialOrd<F> for F {
     #[verifier::external_body]
     fn partial_cmp(&self, o: &F) -> (r: Option<Ordering>) { unimplemented!() }
+}
+
+/// the sign facts attached to `*` and `/` above are theorems of real arithmetic, not extra assumptions
+pub proof fn lemma_mul_facts(a: real, b: real)
+    ensures (a >= 0real && b >= 0real) ==> a * b >= 0real,
+        (a == 0real || b == 0real) ==> a * b == 0real,
+        (a >= 0real && 0real <= b <= 1real) ==> a * b <= a,
+        (b >= 0real && 0real <= a <= 1real) ==> a * b <= b,
+        (a >= 0real && b > 0real) ==> a / b >= 0real,
+{
+    assert((a >= 0real && b >= 0real) ==> a * b >= 0real) by(nonlinear_arith);
+    assert((a == 0real || b == 0real) ==> a * b == 0real) by(nonlinear_arith);
+    assert((a >= 0real && 0real <= b <= 1real) ==> a * b <= a) by(nonlinear_arith);
+    assert((b >= 0real && 0real <= a <= 1real) ==> a * b <= b) by(nonlinear_arith);
+    assert((a >= 0real && b > 0real) ==> a / b >= 0real) by(nonlinear_arith);
 }
 
 /// `panic!` in the source: reaching it is a proof obligation (sound: can never be called)
